@@ -186,6 +186,12 @@ def run(ctx, R, tier):
     if catch is not None:
         H = [h for h in catch.handlers if handler_is_catch_all(h)][0]
         xv = H.name
+        from ..engine.context import locals_assigned
+        flagvars = set(locals_assigned(f, lambda v: isinstance(v, ast.Attribute) and v.attr == "flags"))
+        cbvars = set(locals_assigned(f, lambda v: isinstance(v, ast.Call) and isinstance(v.func, ast.Name) and v.func.id == "getattr" and len(v.args) >= 2
+                                     and isinstance(v.args[1], ast.Constant) and v.args[1].value == "_pyroCallback"))
+        if not flagvars or not cbvars:
+            raise AnalysisError("handleRequest: locals holding the request flags / the callback mark vanished")
         sends = [c for c in ctx.calls_to(f, "Pyro5.server.Daemon._sendExceptionResponse") if _inside(c, H)]
         raises = [n for st in H.body for n in walk_no_nested(st) if isinstance(n, ast.Raise)]
         if not sends:
@@ -213,9 +219,9 @@ def run(ctx, R, tier):
                                     return None
                                 return any(es.is_sub(cls, x) for x in cs)
                             fa = flag_test_atom(test)
-                            if fa and unparse(fa[0]) == "request_flags" and ctx.resolves_to_object(fa[1], f, "Pyro5.protocol.FLAGS_ONEWAY"):
+                            if fa and unparse(fa[0]) in flagvars and ctx.resolves_to_object(fa[1], f, "Pyro5.protocol.FLAGS_ONEWAY"):
                                 return oneway
-                            if isinstance(test, ast.Name) and test.id == "isCallback":
+                            if isinstance(test, ast.Name) and test.id in cbvars:
                                 return cb
                             return None
                         n_cases += 1
